@@ -144,6 +144,71 @@ func TestVerifC10Core(t *testing.T) {
 			res.Distinct("nontrivial", fmt.Sprintf("%s|%d|ok", what, j))
 			unsealed.Close()
 		}
+		// ---- survived faults: the k-th storage operation of the call fails once, the
+		// process lives on, writes one more entry, is sealed (shut down) and unsealed
+		// with the keys the operator holds: the NEW shares only if the call handed them
+		// out, else the old ones.  Every acknowledged entry must read back.
+		sF := Boot(t, img)
+		sF.Phys.FailAt("call", 1<<30)
+		sF.Phys.SetTag("call")
+		_, _ = c10Act(sF, what)
+		sF.Phys.SetTag("")
+		nops := sF.Phys.TagCount("call")
+		sF.Close()
+		res.Max("ops_in_operation", int64(nops))
+		for k := 1; k <= nops; k++ {
+			count++
+			if !vout.Mine(count) {
+				continue
+			}
+			s := Boot(t, img)
+			s.Phys.FailAt("call", k)
+			s.Phys.SetTag("call")
+			shares, aerr := c10Act(s, what)
+			s.Phys.SetTag("")
+			failed := s.Phys.Failed()
+			fwhat := "not reached"
+			if failed != nil {
+				fwhat = failed.String()
+			}
+			res.Add("executions", 1)
+			res.Add("fault_runs", 1)
+			art := map[string]interface{}{"op": what, "fault_at_op": k, "failed_op": fwhat}
+			later := OK(s.Req(s.Root, logical.UpdateOperation, "rec/kv/later", map[string]interface{}{"value": "LATER"}))
+			snap := s.Phys.Snapshot()
+			s.Close()
+			holds := img.Keys
+			held := "old shares"
+			if what == "rekey" && aerr == nil && len(shares) > 0 {
+				holds, held = shares, "new shares"
+			}
+			sx, err := BootSealed(t, snap, img)
+			if err != nil {
+				t.Fatalf("harness: %v", err)
+			}
+			ok, uerr := sx.TryUnseal(holds)
+			if !ok {
+				fop := "none"
+				if failed != nil {
+					fop = failed.Kind + "(" + failed.Key + ")"
+				}
+				sig := fmt.Sprintf("c10:core:fault:%s:unsealable-with-held-keys:%s:%s", what, map[bool]string{true: "call-succeeded", false: "call-failed"}[aerr == nil], fop)
+				res.Violate(sig, fmt.Sprintf("%s with storage op %d [%s] failing (call error: %v): after a shutdown the store does not unseal with the %s, the only ones the operator holds (%v)", what, k, fwhat, aerr, held, uerr), art)
+				res.Distinct("nontrivial", fmt.Sprintf("F|%s|%v|unsealable", what, aerr == nil))
+				sx.Close()
+				continue
+			}
+			if resp, err := sx.Req(sx.Root, logical.ReadOperation, "rec/kv/a", nil); !OK(resp, err) || resp == nil || resp.Data["value"] != "EARLIER" {
+				res.Violate(fmt.Sprintf("c10:core:fault:%s:entry-lost", what), fmt.Sprintf("%s with storage op %d [%s] failing: unsealed with the %s, but the earlier entry does not read back (%s)", what, k, fwhat, held, ErrText(resp, err)), art)
+			}
+			if later {
+				if resp, err := sx.Req(sx.Root, logical.ReadOperation, "rec/kv/later", nil); !OK(resp, err) || resp == nil || resp.Data["value"] != "LATER" {
+					res.Violate(fmt.Sprintf("c10:core:fault:%s:later-entry-lost", what), fmt.Sprintf("%s with storage op %d [%s] failing (call error: %v): an entry acknowledged AFTER the failed operation does not read back after seal/unseal (%s)", what, k, fwhat, aerr, ErrText(resp, err)), art)
+				}
+			}
+			res.Distinct("nontrivial", fmt.Sprintf("F|%s|%v|%v|ok", what, aerr == nil, later))
+			sx.Close()
+		}
 		res.Add("states", 1)
 		res.Sample(map[string]interface{}{"operation": what, "durable_mutations": nmut})
 	}
